@@ -409,7 +409,7 @@ static void udp_remove_pipe(udp_pipe *p)
 __CPROVER_requires(g_n < UF_MAPK && M_SHAPE_PRE && M_LIVE(g_n) && __CPROVER_pointer_in_range_dfcc(MP(g_n), p, MP(g_n)))
 __CPROVER_requires(__CPROVER_is_fresh(p->ep, sizeof(udp_ep)) && g_map_addr == &p->ep->pipes && M_DISTINCT && M_REACH_ALL && p->ep->peer_count == M_COUNT && g_the_pipe == (void *) p)
 __CPROVER_requires(g_node_active == g_cpq.has_p && (!g_cpq.has_p || g_cpq.n > 0))
-__CPROVER_assigns(p->id, p->ep->peer_count, g_idrm_calls, __CPROVER_object_whole(g_map), g_cpq, g_node_active, g_pipe_rele_calls)
+__CPROVER_assigns(p->id, p->ep->peer_count, g_idrm_calls, g_idset_calls, __CPROVER_object_whole(g_map), g_cpq, g_node_active, g_pipe_rele_calls)
 __CPROVER_ensures(p->id == 0 && !M_HOLDS(p))
 __CPROVER_ensures(p->ep->peer_count == M_COUNT && M_COUNT == OLD(p->ep->peer_count) - 1)
 __CPROVER_ensures(p->state < PIPE_CONN_DONE ? (g_pipe_rele_calls == OLD(g_pipe_rele_calls) + 1 && !g_node_active && !g_cpq.has_p) : (g_pipe_rele_calls == OLD(g_pipe_rele_calls) && g_node_active == OLD(g_node_active)))
